@@ -28,8 +28,8 @@ var wlSrcNames = []string{"valid", "valid-lower-decoder", "char-edit", "token-ed
 // stringWorkload drives the whole string workload of one version through visit.
 // Phases are seed-determined; sizes depend on the tier only.
 func stringWorkload(r *Run, v2 bool, visit strVisitor) {
-	nSeedChar := r.Pick(40, 250)  // seeds per level for the exhaustive character-edit neighbourhood
-	nSeedTok := r.Pick(120, 600)  // seeds per level for token-level neighbourhood and sharp classes
+	nSeedChar := r.Pick(40, 250) // seeds per level for the exhaustive character-edit neighbourhood
+	nSeedTok := r.Pick(120, 600) // seeds per level for token-level neighbourhood and sharp classes
 	nDouble := r.Pick(200000, 20000000)
 	nRandom := r.Pick(150000, 5000000)
 	depth := r.Pick(2, 3)
@@ -92,28 +92,13 @@ func stringWorkload(r *Run, v2 bool, visit strVisitor) {
 	})
 	r.Phase("single-edit neighbourhoods + sharp classes")
 
-	// 3. double edits
-	r.Parallel(nDouble/100, 4, func(w *W, blk int) {
-		rng := r.Rng(uint64(blk) + 1<<33)
-		m := &strMeta{Src: "double-edit", V2: v2, Sharp: -1}
-		for k := 0; k < 100; k++ {
-			var s string
-			L := rng.IntN(3)
-			if !v2 {
-				v := seed3(rng, L)
-				s = join3("CVSS:"+spec.V3Versions[v.Ver], toks3(&v, L, rng, rng.IntN(2) == 0))
-			} else {
-				v := seed2(rng, L)
-				s = v.String()
-			}
-			for e := 0; e < 2; e++ {
-				s = randomEdit(rng, s, v2)
-			}
-			visit(w, s, m)
-		}
-	})
-	r.Phase("double edits")
-
+	// 3. double and triple edits (the last fifth under forced garbage collections)
+	doubleEdits := func(lo, hi int) {
+		r.Parallel(hi-lo, 4, func(w *W, i int) { doubleEditBlock(r, w, lo+i, v2, visit) })
+	}
+	doubleEdits(0, nDouble/100*4/5)
+	GCStress(func() { doubleEdits(nDouble/100*4/5, nDouble/100) })
+	r.Phase("double/triple edits")
 	// 4. token-level exhaustive: all sequences of <= depth pool tokens appended to / inserted into a fixed valid vector
 	pool := tokenPool(v2)
 	fixed := []string{"AV:N", "AC:L", "PR:N", "UI:N", "S:U", "C:H", "I:H", "A:H"}
@@ -228,4 +213,29 @@ func randomEdit(rng interface{ IntN(int) int }, s string, v2 bool) string {
 		}
 	}
 	return s + "/"
+}
+
+// doubleEditBlock visits 100 seed vectors with two (or, for every fourth, three) random edits applied.
+func doubleEditBlock(r *Run, w *W, blk int, v2 bool, visit strVisitor) {
+	rng := r.Rng(uint64(blk) + 1<<33)
+	m := &strMeta{Src: "double-edit", V2: v2, Sharp: -1}
+	for k := 0; k < 100; k++ {
+		var s string
+		L := rng.IntN(3)
+		if !v2 {
+			v := seed3(rng, L)
+			s = join3("CVSS:"+spec.V3Versions[v.Ver], toks3(&v, L, rng, rng.IntN(2) == 0))
+		} else {
+			v := seed2(rng, L)
+			s = v.String()
+		}
+		n := 2
+		if k%4 == 3 {
+			n = 3
+		}
+		for e := 0; e < n; e++ {
+			s = randomEdit(rng, s, v2)
+		}
+		visit(w, s, m)
+	}
 }
